@@ -355,10 +355,20 @@ func TestVerif_C16_Libp2pChannel(t *testing.T) {
 			hist = append(hist, fmt.Sprintf("recv%d", r.id))
 		}
 
-		addReceiver()
-		nOps := rapid.IntRange(1, 14).Draw(t, "ops")
+		for i, n := 0, rapid.IntRange(1, 3).Draw(t, "initialReceivers"); i < n; i++ {
+			addReceiver()
+		}
+		nOps := rapid.IntRange(2, 14).Draw(t, "ops")
+		opening := rapid.IntRange(0, 2).Draw(t, "opening") > 0 // most histories open with send, tick
 		for op := 0; op < nOps; op++ {
-			switch rapid.SampledFrom([]string{"send", "send", "tick", "tick", "tick", "redeliver", "redeliver", "inject", "recv", "cancel", "cancel", "cancelmsg"}).Draw(t, "op") {
+			opName := rapid.SampledFrom([]string{"redeliver", "cancel", "tick", "send", "recv", "inject", "tick", "redeliver", "send", "cancel", "inject", "recv", "tick", "redeliver", "cancelmsg"}).Draw(t, "op")
+			if opening && op == 0 {
+				opName = "send"
+			}
+			if opening && op == 1 {
+				opName = "tick"
+			}
+			switch opName {
 			case "recv":
 				if len(w.receivers) < 4 {
 					addReceiver()
@@ -366,6 +376,15 @@ func TestVerif_C16_Libp2pChannel(t *testing.T) {
 			case "send":
 				// k concurrent senders on the channel
 				k := rapid.IntRange(1, 4).Draw(t, "senders")
+				// bound the retransmission traffic of a step well below the
+				// capacity of a receiver's inbox (an overflowing inbox drops
+				// messages by design; the property is not about that)
+				if room := 10 - liveMsgs; k > room {
+					k = room
+				}
+				if k <= 0 {
+					break
+				}
 				if k > 1 {
 					concurrentSends++
 				}
@@ -499,6 +518,19 @@ func TestVerif_C16_Libp2pChannel(t *testing.T) {
 				w.mu.Unlock()
 				cancels++
 				hist = append(hist, fmt.Sprintf("cancel%d", r.id))
+				// deliveries that start after the cancel returned: a message
+				// nobody has seen yet and, if there is one, a known message
+				fresh := c16Key{peers[1].id.String(), uint64(1000 + cancels)}
+				sendIDs++
+				envelopes[fresh], authors[fresh] = c16Envelope(peers[1].inner, c16Type, sendIDs, fresh.seqno), peers[1].id
+				known = append(known, fresh)
+				for _, key := range []c16Key{fresh, rapid.SampledFrom(known).Draw(t, "afterCancel")} {
+					w.startDelivery(key)
+					if err := process(authors[key], envelopes[key]); err != nil {
+						fail("envelope rejected: %v", err)
+					}
+					completed(key)
+				}
 			case "cancelmsg":
 				// end the context of the oldest live message: its retransmissions stop
 				if liveMsgs > 0 {
@@ -534,5 +566,45 @@ func TestVerif_C16_Libp2pChannel(t *testing.T) {
 			fmt.Sprintf("cancellations:%v", cancels > 0),
 			fmt.Sprintf("concurrent-sends:%v", concurrentSends > 0), fmt.Sprintf("receivers:%d", len(w.receivers)),
 			fmt.Sprintf("sends>=3:%v", sends >= 3))
+	})
+}
+
+// TestVerif_C16_Libp2pSeqnos hammers the channel's sequence counter the way
+// concurrent senders do: g goroutines draw n numbers each, released together.
+// All numbers drawn on one channel must be pairwise distinct.
+func TestVerif_C16_Libp2pSeqnos(t *testing.T) {
+	st := verifkit.New("C16", "TestVerif_C16_Libp2pSeqnos")
+	defer st.Flush()
+	rapid.Check(t, func(t *rapid.T) {
+		ch := &channel{}
+		g := rapid.IntRange(1, 16).Draw(t, "goroutines")
+		n := rapid.IntRange(1, 400).Draw(t, "each")
+		out := make([][]uint64, g)
+		barrier := make(chan struct{})
+		var wg sync.WaitGroup
+		for i := 0; i < g; i++ {
+			wg.Add(1)
+			go func(i int) {
+				defer wg.Done()
+				mine := make([]uint64, 0, n)
+				<-barrier
+				for j := 0; j < n; j++ {
+					mine = append(mine, ch.nextSeqno())
+				}
+				out[i] = mine
+			}(i)
+		}
+		close(barrier)
+		wg.Wait()
+		seen := map[uint64]int{}
+		for i, l := range out {
+			for _, s := range l {
+				if other, dup := seen[s]; dup {
+					t.Fatalf("sequence number %d handed out twice (to senders %d and %d) with %d concurrent senders drawing %d numbers each", s, other, i, g, n)
+				}
+				seen[s] = i
+			}
+		}
+		st.Case(g > 1, fmt.Sprintf("goroutines=%d each=%d", g, n), fmt.Sprintf("concurrent:%v", g > 1))
 	})
 }
